@@ -391,11 +391,16 @@ def itemstr(parents=None, item=None, value=None):
 
 
 # pattern for picking out comma separated items which does not split commas
-# inside of quotes
+# inside of quotes or inside of regex quantifiers e.g. "{1,3}" (section names
+# can be regular expressions e.g. global.cylc[platforms][<platform name>])
 SECTION_EXPAND_PATTERN = re.compile(
     r'''
         (?:
-          [^,"']+
+          \{[\s\d]*,[\s\d]*\}
+          |
+          [^,"'{]+
+          |
+          \{
           |
           "[^"]*"
           |
